@@ -129,6 +129,6 @@ def main():
     print("claimed", len(checks), "not applicable", len(na))
 
 NOT_YET = {}
-HOOK_COMMITS = ["57dbf80", "9859bf3", "678ed52", "1099a61"]
+HOOK_COMMITS = ["57dbf80", "9859bf3", "678ed52", "1099a61", "bcb7a71"]
 if __name__ == "__main__":
     main()
